@@ -49,7 +49,7 @@ ASSUMPTIONS = [
 ]
 REQUIRED_PROBES = {"C02": ["probe_restart_with_argN_alive", "probe_roundtrip_served",
                            "probe_same_text_two_histories", "evals_compared"]}
-BUDGETS = {"C02": dict(quick_runs=2000, thorough_budget=900,
+BUDGETS = {"C02": dict(quick_runs=1600, thorough_budget=900,
                        technique="deterministic simulation: seeded serve/round-trip/warm/restart histories of a simplifier node, original-vs-simplified evaluation on seeded data under every fresh-name history")}
 
 ATTRS = {"evt": {"x": "int", "w": "int", "jets": ("seq", ("rec", "jet"))},
